@@ -384,7 +384,16 @@ fn plan_ds(o: &Opts, prop: &str, ds: vcore::ast::Ds) -> Vec<GroupSpec> {
       .map(|i| {
          let mut r = rng_for(prop, o.seed, i);
          let ternary = i % 2 == 1;
-         let prog = vcore::gen_ds::gen_byods(&mut r, &GenCfg::core(), ds, ternary);
+         let cfg = GenCfg::core();
+         if ds == vcore::ast::Ds::TrRelUf {
+            if cfg.excluded("KF-13") {
+               crate::count_excluded("KF-13 (recursive feeding not generated)");
+            }
+            if ternary && cfg.excluded("KF-14") {
+               crate::count_excluded("KF-14 (key-free reads not generated)");
+            }
+         }
+         let prog = vcore::gen_ds::gen_byods(&mut r, &cfg, ds, ternary);
          let base = format!("{prop}-s{}-{}", o.seed, i);
          let mut m = meta(&base, "ser", Kind::Ascent, true);
          m.labels = vec![format!("arity={}", if ternary { 3 } else { 2 })];
